@@ -218,6 +218,8 @@ class Grid:
         # TODO We need a way here to check valid input. Maybe also in _as_axis_kwargs?
         # Parse axis properties
         boundary_dict = self._map_kwargs_over_axes(boundary, axes=all_axes)
+        # complete a partial mapping over all axes, without writing into the caller's mapping
+        boundary_dict = {axname: boundary_dict.get(axname, None) for axname in all_axes}
         # TODO: In the future we want this the only place where we store these.
         # TODO: This info needs to then be accessible to e.g. pad()
 
